@@ -246,14 +246,14 @@ Section Sound.
   Qed.
 
   (** MAIN: a returned result is right, at this (arbitrary) resolved environment *)
-  Theorem to_symbolic_sound F m eqs :
+  Theorem to_symbolic_on_sound names F m eqs :
     Resolved fsem m env ->
-    to_symbolic fsym F m = SymOk eqs ->
+    to_symbolic_on fsym names F m = SymOk eqs ->
     Forall2 (fun e v => eval env e == num_rhs fsem m env v) eqs (m_vars m).
   Proof.
-    intros [Hder Hrxn] H. unfold to_symbolic in H.
+    intros [Hder Hrxn] H. unfold to_symbolic_on in H.
     destruct (der_sequence F m) as [ds|] eqn:Eds; [|discriminate].
-    destruct (insert_derived fsym ds (base_symbols m)) as [x|tab] eqn:Etab; [discriminate|].
+    destruct (insert_derived fsym ds (sym_entries names)) as [x|tab] eqn:Etab; [discriminate|].
     destruct (conv_rxns fsym tab (m_rxn m)) as [x|rxns] eqn:Erx; [discriminate|].
     destruct (stat_loop rxns (m_stoich m) []) as [x|eqs0] eqn:Est; [discriminate|].
     destruct (dyn_part fsym F tab rxns (m_dyn m) eqs0) as [x|eqs1] eqn:Edy; [discriminate|].
@@ -271,6 +271,16 @@ Section Sound.
     unfold eq_get. cbn [lookup eval]. ring.
   Qed.
 
+  (** ... whatever the symbol table is made of (every value of the fact sf_symtab) *)
+  Theorem to_symbolic_sound F m eqs :
+    Resolved fsem m env ->
+    to_symbolic fsym F m = SymOk eqs ->
+    Forall2 (fun e v => eval env e == num_rhs fsem m env v) eqs (m_vars m).
+  Proof.
+    intros HR H. unfold to_symbolic in H. destruct (table_names F m) as [names|]; [|discriminate].
+    exact (to_symbolic_on_sound names F m eqs HR H).
+  Qed.
+
   (** pre-fix fact DynListTimesRate: a state-dependent computed coefficient is refused (modelled
       on non-Integer rate expressions, see SymModel.dyn_part) *)
   Lemma dyn_raises_old F m cpd row :
@@ -278,8 +288,9 @@ Section Sound.
     In (cpd, row) (m_dyn m) -> row <> [] -> forall eqs, to_symbolic fsym F m <> SymOk eqs.
   Proof.
     intros HF Hin Hne eqs H. unfold to_symbolic in H.
+    destruct (table_names F m) as [names|]; [|discriminate]. unfold to_symbolic_on in H.
     destruct (der_sequence F m) as [ds|]; [|discriminate].
-    destruct (insert_derived fsym ds (base_symbols m)) as [x|tab]; [discriminate|].
+    destruct (insert_derived fsym ds (sym_entries names)) as [x|tab]; [discriminate|].
     destruct (conv_rxns fsym tab (m_rxn m)) as [x|rxns]; [discriminate|].
     destruct (stat_loop rxns (m_stoich m) []) as [x|eqs0]; [discriminate|].
     unfold dyn_part in H. rewrite HF in H.
@@ -493,37 +504,60 @@ Section Syms.
   Qed.
 End Syms.
 
-Theorem to_symbolic_syms fsym
+Theorem to_symbolic_on_syms fsym
   (fsym_syms : forall f es e, fsym f es = Some e -> forall n, In n (syms e) -> exists e', In e' es /\ In n (syms e'))
-  F m eqs :
-  to_symbolic fsym F m = SymOk eqs -> forall e, In e eqs -> incl (syms e) (base_names m).
+  names F m eqs :
+  to_symbolic_on fsym names F m = SymOk eqs -> forall e, In e eqs -> incl (syms e) names.
 Proof.
-  intros H. unfold to_symbolic in H.
+  intros H. unfold to_symbolic_on in H.
   destruct (der_sequence F m) as [ds|] eqn:Eds; [|discriminate].
-  destruct (insert_derived fsym ds (base_symbols m)) as [x|tab] eqn:Etab; [discriminate|].
+  destruct (insert_derived fsym ds (sym_entries names)) as [x|tab] eqn:Etab; [discriminate|].
   destruct (conv_rxns fsym tab (m_rxn m)) as [x|rxns] eqn:Erx; [discriminate|].
   destruct (stat_loop rxns (m_stoich m) []) as [x|eqs0] eqn:Est; [discriminate|].
   destruct (dyn_part fsym F tab rxns (m_dyn m) eqs0) as [x|eqs1] eqn:Edy; [discriminate|].
   destruct (lookup_all eqs1 (m_vars m)) as [l|] eqn:El; [|discriminate].
   injection H as H. subst l.
-  assert (Hb : TabIn (base_names m) (base_symbols m)).
+  assert (Hb : TabIn names (sym_entries names)).
   { intros k e Hl. apply lookup_base in Hl. destruct Hl as [H1 H2]. subst e. cbn [syms].
     intros z [Hz|[]]. subst z. exact H2. }
   pose proof (insert_derived_syms fsym fsym_syms _ _ _ _ Hb Etab) as Htab.
   pose proof (conv_rxns_syms fsym fsym_syms _ _ _ _ Htab Erx) as Hrx.
-  assert (He0 : TabIn (base_names m) []) by (intros k e Hl; discriminate).
-  pose proof (stat_loop_syms (base_names m) _ _ _ _ Hrx He0 Est) as Heqs0.
-  pose proof (dyn_part_syms fsym fsym_syms (base_names m) _ _ _ _ _ _ Htab Hrx Heqs0 Edy) as Heqs.
+  assert (He0 : TabIn names []) by (intros k e Hl; discriminate).
+  pose proof (stat_loop_syms names _ _ _ _ Hrx He0 Est) as Heqs0.
+  pose proof (dyn_part_syms fsym fsym_syms names _ _ _ _ _ _ Htab Hrx Heqs0 Edy) as Heqs.
   apply lookup_all_Forall2 in El.
   intros e Hin. induction El as [|x a es args H1 _ IH]; [destruct Hin|].
   destruct Hin as [Hin|Hin]; [subst x; exact (Heqs _ _ H1)|exact (IH Hin)].
 Qed.
 
+(** the returned equations mention keys of the symbol table only; with the shipped table
+    (variables | parameters | data) these are the base names *)
+Theorem to_symbolic_syms_table fsym
+  (fsym_syms : forall f es e, fsym f es = Some e -> forall n, In n (syms e) -> exists e', In e' es /\ In n (syms e'))
+  F m eqs :
+  to_symbolic fsym F m = SymOk eqs ->
+  exists names, table_names F m = Some names /\ forall e, In e eqs -> incl (syms e) names.
+Proof.
+  intros H. unfold to_symbolic in H. destruct (table_names F m) as [names|] eqn:E; [|discriminate].
+  exists names. split; [reflexivity|]. exact (to_symbolic_on_syms fsym fsym_syms names F m eqs H).
+Qed.
+
+Theorem to_symbolic_syms fsym
+  (fsym_syms : forall f es e, fsym f es = Some e -> forall n, In n (syms e) -> exists e', In e' es /\ In n (syms e'))
+  F m eqs :
+  sf_symtab F = SymVarsParsData ->
+  to_symbolic fsym F m = SymOk eqs -> forall e, In e eqs -> incl (syms e) (base_names m).
+Proof.
+  intros HF H. unfold to_symbolic, table_names in H. rewrite HF in H.
+  exact (to_symbolic_on_syms fsym fsym_syms (base_names m) F m eqs H).
+Qed.
+
 Lemma to_symbolic_length fsym F m eqs : to_symbolic fsym F m = SymOk eqs -> length eqs = length (m_vars m).
 Proof.
-  intros H. unfold to_symbolic in H.
+  intros H. unfold to_symbolic in H. destruct (table_names F m) as [names|]; [|discriminate].
+  unfold to_symbolic_on in H.
   destruct (der_sequence F m) as [ds|]; [|discriminate].
-  destruct (insert_derived fsym ds (base_symbols m)) as [x|tab]; [discriminate|].
+  destruct (insert_derived fsym ds (sym_entries names)) as [x|tab]; [discriminate|].
   destruct (conv_rxns fsym tab (m_rxn m)) as [x|rxns]; [discriminate|].
   destruct (stat_loop rxns (m_stoich m) []) as [x|eqs0]; [discriminate|].
   destruct (dyn_part fsym F tab rxns (m_dyn m) eqs0) as [x|eqs1]; [discriminate|].
@@ -547,8 +581,14 @@ Section Success.
     cv_translate : forall k c, In (k, c) (m_der m ++ m_rxn m) ->
                    forall es, length es = length (c_args c) -> fsym (c_fn c) es <> None ;
     cv_stoich_rxn : forall cpd row r n, In (cpd, row) (m_stoich m) -> In (r, n) row -> In r (map fst (m_rxn m)) ;
-    cv_no_dyn : forall cpd row, In (cpd, row) (m_dyn m) -> row = [] ;
-    cv_covered : forall v, In v (m_vars m) -> exists row, In (v, row) (m_stoich m) /\ row <> []
+    (* a state-dependent computed coefficient is converted like a rate: its reaction is a reaction of
+       the model, its arguments are convertible names, its function translates *)
+    cv_dyn : forall cpd row r c, In (cpd, row) (m_dyn m) -> In (r, c) row ->
+             In r (map fst (m_rxn m)) /\
+             (forall a, In a (c_args c) -> In a (base_names m) \/ In a (der_names m)) /\
+             (forall es, length es = length (c_args c) -> fsym (c_fn c) es <> None) ;
+    cv_covered : forall v, In v (m_vars m) ->
+                 (exists row, In (v, row) (m_stoich m) /\ row <> []) \/ (exists row, In (v, row) (m_dyn m) /\ row <> [])
   }.
 
   (** what property C02 proves of [cache.order] for every declaration order: it lists every derived
@@ -650,38 +690,48 @@ Section Success.
       + intros c row [Hin|Hin] Hne; [injection Hin as H1 H2; subst; apply F2; apply E3; exact Hne|exact (F3 c row Hin Hne)].
   Qed.
 
-  Lemma dyn_loop_empty tab rxns (tbl : list (name * list (name * comp))) :
-    (forall cpd row, In (cpd, row) tbl -> row = []) -> dyn_loop tab rxns tbl = None.
+  Lemma dyn_row_total tab rxns cpd ds : forall eqs,
+    (forall r c, In (r, c) ds -> lookup r rxns <> None /\ exists e, conv_one fsym tab c = inr e) ->
+    exists eqs', dyn_row fsym tab rxns cpd ds eqs = inr eqs' /\
+      (forall v, lookup v eqs <> None -> lookup v eqs' <> None) /\ (ds <> [] -> lookup cpd eqs' <> None).
   Proof.
-    induction tbl as [|[c row] tbl IH]; intros H; cbn [dyn_loop]; [reflexivity|].
-    rewrite (H c row (or_introl eq_refl)). apply IH. intros c' r' Hin. apply (H c'). right. exact Hin.
+    induction ds as [|[r c] ds IH]; intros eqs H; cbn [dyn_row].
+    - exists eqs. split; [reflexivity|]. split; [intros v Hv; exact Hv|intros Hne; exfalso; apply Hne; reflexivity].
+    - destruct (H r c (or_introl eq_refl)) as [Hr [ce Ece]]. rewrite Ece.
+      destruct (lookup r rxns) as [re|] eqn:E; [|exfalso; exact (Hr eq_refl)].
+      destruct (IH ((cpd, EAdd (eq_get eqs cpd) (EMul ce re)) :: eqs)) as [eqs' [E1 [E2 E3]]];
+        [intros r' c' Hin; apply (H r' c'); right; exact Hin|].
+      exists eqs'. split; [exact E1|]. split.
+      + intros v Hv. apply E2. cbn [lookup]. destruct (N.eqb cpd v); [discriminate|exact Hv].
+      + intros _. apply E2. cbn [lookup]. rewrite N.eqb_refl. discriminate.
   Qed.
 
-  Lemma dyn_loop_coef_empty tab rxns (tbl : list (name * list (name * comp))) eqs :
-    (forall cpd row, In (cpd, row) tbl -> row = []) -> dyn_loop_coef fsym tab rxns tbl eqs = inr eqs.
+  Lemma dyn_loop_coef_total tab rxns tbl : forall eqs,
+    (forall cpd row r c, In (cpd, row) tbl -> In (r, c) row -> lookup r rxns <> None /\ exists e, conv_one fsym tab c = inr e) ->
+    exists eqs', dyn_loop_coef fsym tab rxns tbl eqs = inr eqs' /\
+      (forall v, lookup v eqs <> None -> lookup v eqs' <> None) /\
+      (forall cpd row, In (cpd, row) tbl -> row <> [] -> lookup cpd eqs' <> None).
   Proof.
-    induction tbl as [|[c row] tbl IH]; intros H; cbn [dyn_loop_coef]; [reflexivity|].
-    rewrite (H c row (or_introl eq_refl)). cbn [dyn_row]. apply IH. intros c' r' Hin. apply (H c'). right. exact Hin.
+    induction tbl as [|[cpd ds] tbl IH]; intros eqs H; cbn [dyn_loop_coef].
+    - exists eqs. split; [reflexivity|]. split; [intros v Hv; exact Hv|intros c r []].
+    - destruct (dyn_row_total tab rxns cpd ds eqs) as [eqs1 [E1 [E2 E3]]];
+        [intros r c Hin; apply (H cpd ds r c); [left; reflexivity|exact Hin]|].
+      rewrite E1.
+      destruct (IH eqs1) as [eqs' [F1 [F2 F3]]];
+        [intros c0 row r c H1 H2; apply (H c0 row r c); [right; exact H1|exact H2]|].
+      exists eqs'. split; [exact F1|]. split.
+      + intros v Hv. apply F2. apply E2. exact Hv.
+      + intros c0 row [Hin|Hin] Hne; [injection Hin as H1 H2; subst; apply F2; apply E3; exact Hne|exact (F3 c0 row Hin Hne)].
   Qed.
 
-  Definition dyn_known (F : sym_facts) : bool := match sf_dyn F with DynUnknown => false | _ => true end.
-
-  Lemma dyn_part_empty F tab rxns (tbl : list (name * list (name * comp))) eqs :
-    dyn_known F = true ->
-    (forall cpd row, In (cpd, row) tbl -> row = []) -> dyn_part fsym F tab rxns tbl eqs = inr eqs.
+  (** the conversion over the shipped symbol table (variables | parameters | data) *)
+  Theorem convertible_converts_on F :
+    sf_order F = OrdDependency -> sf_dyn F = DynCoefTimesRate ->
+    exists eqs, to_symbolic_on fsym (base_names m) F m = SymOk eqs.
   Proof.
-    unfold dyn_known. intros HF H. unfold dyn_part. destruct (sf_dyn F).
-    - rewrite (dyn_loop_empty tab rxns tbl H). reflexivity.
-    - apply dyn_loop_coef_empty. exact H.
-    - discriminate.
-  Qed.
-
-  Theorem convertible_converts F :
-    sf_order F = OrdDependency -> dyn_known F = true -> exists eqs, to_symbolic fsym F m = SymOk eqs.
-  Proof.
-    intros HF HFd. unfold to_symbolic, der_sequence. rewrite HF.
-    destruct (pick_insert_ok (m_order m) [] (base_symbols m) eq_refl) as [tab [Etab Htab]].
-    { intros a [Ha|[[] _]]. apply lookup_Some_key. unfold base_symbols. rewrite map_map. cbn [fst]. rewrite map_id. exact Ha. }
+    intros HF HFd. unfold to_symbolic_on, der_sequence. rewrite HF.
+    destruct (pick_insert_ok (m_order m) [] (sym_entries (base_names m)) eq_refl) as [tab [Etab Htab]].
+    { intros a [Ha|[[] _]]. apply lookup_Some_key. unfold sym_entries. rewrite map_map. cbn [fst]. rewrite map_id. exact Ha. }
     rewrite Etab. cbn [app] in Htab.
     assert (Hall : forall a, In a (base_names m) \/ In a (der_names m) -> lookup a tab <> None).
     { intros a [Ha|Ha]; apply Htab; [left; exact Ha|right; split; [apply (proj1 Hord); exact Ha|exact Ha]]. }
@@ -692,9 +742,23 @@ Section Success.
     rewrite Erx.
     destruct (stat_loop_total rxns (m_stoich m) []) as [eqs1 [Est [_ Hcov]]].
     { intros cpd row r n H1 H2. apply lookup_Some_key. rewrite Hkeys. exact (cv_stoich_rxn m Hconv cpd row r n H1 H2). }
-    rewrite Est. rewrite (dyn_part_empty F tab rxns (m_dyn m) eqs1 HFd (cv_no_dyn m Hconv)).
-    destruct (lookup_all_total eqs1 (m_vars m)) as [l [El _]].
-    { intros v Hv. destruct (cv_covered m Hconv v Hv) as [row [H1 H2]]. exact (Hcov v row H1 H2). }
+    rewrite Est. unfold dyn_part. rewrite HFd.
+    destruct (dyn_loop_coef_total tab rxns (m_dyn m) eqs1) as [eqs2 [Edy [Hkeep Hcovd]]].
+    { intros cpd row r c H1 H2. destruct (cv_dyn m Hconv cpd row r c H1 H2) as [Hr [Ha Hf]]. split.
+      - apply lookup_Some_key. rewrite Hkeys. exact Hr.
+      - apply conv_one_total; [intros a Hin; apply Hall; exact (Ha a Hin)|exact Hf]. }
+    rewrite Edy.
+    destruct (lookup_all_total eqs2 (m_vars m)) as [l [El _]].
+    { intros v Hv. destruct (cv_covered m Hconv v Hv) as [[row [H1 H2]]|[row [H1 H2]]].
+      - apply Hkeep. exact (Hcov v row H1 H2).
+      - exact (Hcovd v row H1 H2). }
     rewrite El. exists l. reflexivity.
+  Qed.
+
+  Theorem convertible_converts F :
+    sf_order F = OrdDependency -> sf_symtab F = SymVarsParsData -> sf_dyn F = DynCoefTimesRate ->
+    exists eqs, to_symbolic fsym F m = SymOk eqs.
+  Proof.
+    intros HF HFt HFd. unfold to_symbolic, table_names. rewrite HFt. exact (convertible_converts_on F HF HFd).
   Qed.
 End Success.
